@@ -170,6 +170,7 @@ loop:
 			break loop
 
 		case queryBid := <-queryBidCh:
+			queryBidCh = nil
 			err := queryBid.Error()
 			bidFound := true
 			if err != nil {
@@ -361,6 +362,14 @@ loop:
 	// A reservation or a bid broadcast may still be in flight. Their results must not be
 	// dropped: a reservation that succeeds has to be released and a bid that was placed
 	// has to be closed below.
+	if queryBidCh != nil {
+		// the lookup of a bid placed before a restart is still in flight: if it finds the
+		// bid, that bid has to be closed below like any other
+		if result := <-queryBidCh; result.Error() == nil {
+			o.bidPlaced = true
+		}
+		queryBidCh = nil
+	}
 	if clusterch != nil {
 		result := <-clusterch
 		clusterch = nil
